@@ -24,7 +24,118 @@ func init() {
 	})
 }
 
+// c16AutoGroups: types of one kind whose definitions differ. An inferred
+// column (proto.ColAuto, what Results.Auto binds) that is used again for
+// another query meets them one after the other.
+var c16AutoGroups = [][]string{
+	{"DateTime64(0)", "DateTime64(3)", "DateTime64(6)", "DateTime64(9)", "DateTime64(3, 'UTC')", "DateTime64(3, 'Asia/Tokyo')", "DateTime64(6, 'Europe/Berlin')", "DateTime64(9, 'America/New_York')"},
+	{"DateTime", "DateTime('UTC')", "DateTime('Asia/Tokyo')", "DateTime('Europe/Berlin')"},
+	{"Enum8('a' = 1, 'b' = 2)", "Enum8('x' = 1, 'y' = 2)", "Enum8('b' = 1, 'a' = 2, 'c' = 3)", "Enum8('neg' = -128, 'zero' = 0, 'max' = 127)"},
+	{"Enum16('lo' = -32768, 'a' = 1, 'big' = 300)", "Enum16('p' = 1, 'q' = 300)", "Enum16('a' = 300, 'big' = 1)"},
+	{"FixedString(1)", "FixedString(4)", "FixedString(16)", "FixedString(5)"},
+	{"Decimal(9, 2)", "Decimal32(4)", "Decimal(18, 4)", "Decimal64(2)", "Decimal(38, 10)", "Decimal(76, 20)"},
+	{"Interval Second", "Interval Day", "Interval Year"},
+}
+
+// rowsShown renders every row of a column through its own Row accessor.
+func rowsShown(col any, rows int) []string {
+	if a, ok := col.(*proto.ColAuto); ok {
+		col = a.Data
+	}
+	m := reflect.ValueOf(col).MethodByName("Row")
+	if !m.IsValid() {
+		return nil
+	}
+	out := make([]string, rows)
+	for i := range out {
+		out[i] = fmt.Sprintf("%v", m.Call([]reflect.Value{reflect.ValueOf(i)})[0].Interface())
+	}
+	return out
+}
+
+// runC16Auto: one inferred column reused for blocks of several definitions;
+// after Reset and Infer (in either order) it must read a block exactly as a
+// fresh one does.
+func runC16Auto(c *choice.Stream, r *Result) {
+	h := fnv.New64a()
+	var names []string
+	defer func() {
+		if p := recover(); p != nil {
+			r.Violate("panic", "panic:"+firstLibFrame(string(debug.Stack())), "inferred column, history %v: panic: %v\n%.1200s", names, p, debug.Stack())
+		}
+		r.Digest = fmt.Sprintf("%016x", h.Sum64())
+		r.Cell = "auto-reuse"
+		r.Sample = map[string]any{"family": "inferred column reused", "history": names}
+	}()
+	group := c16AutoGroups[c.Draw("auto.group", len(c16AutoGroups))]
+	wrap := []string{"%s", "%s", "Array(%s)", "Nullable(%s)", "Map(String, %s)", "Array(Nullable(%s))"}[c.Draw("auto.wrap", 6)]
+	used := new(proto.ColAuto)
+	n := c.Range("auto.steps", 2, 4)
+	vr := c.Sub("vals")
+	for i := 0; i < n; i++ {
+		ty := fmt.Sprintf(wrap, group[c.Draw("auto.type", len(group))])
+		if c.Bool("auto.other", 1, 6) {
+			ty = gen.DrawType(c, 1) // something else entirely in between
+		}
+		if strings.Contains(ty, "LowCardinality") || strings.Contains(ty, "JSON") {
+			continue // a state prefix is read by the caller of DecodeColumn, not by the column
+		}
+		rt, err := refproto.ParseType(ty)
+		if err != nil {
+			panic(err)
+		}
+		fresh := new(proto.ColAuto)
+		if err := fresh.Infer(proto.ColumnType(ty)); err != nil {
+			continue // not a type inference serves
+		}
+		rows := c.Range("auto.rows", 1, 5)
+		vals := gen.Values(vr, rt, rows)
+		var w refproto.W
+		if err := refproto.EncodeData(&w, rt, vals); err != nil {
+			panic(err)
+		}
+		fmt.Fprintf(h, "%s|%x|", ty, w.B)
+		inferFirst := c.Bool("auto.order", 1, 2)
+		names = append(names, ty)
+		if used.Data != nil && !inferFirst {
+			used.Reset()
+		}
+		if err := used.Infer(proto.ColumnType(ty)); err != nil {
+			r.Violate("infer-failed", "auto-infer", "inferred column, history %v: Infer(%q): %v", names, ty, err)
+			return
+		}
+		if inferFirst {
+			used.Reset()
+		}
+		if err := fresh.DecodeColumn(proto.NewReader(&simio.FaultyReader{Data: w.B}), rows); err != nil {
+			r.Harness("fresh inferred column cannot decode valid %s: %v", ty, err)
+			return
+		}
+		if err := used.DecodeColumn(proto.NewReader(&simio.FaultyReader{Data: w.B}), rows); err != nil {
+			r.Violate("decode-differs", "auto-reuse-decode:"+kindName(rt), "inferred column, history %v: the reused column fails to decode a valid block a fresh one reads: %v", names, err)
+			return
+		}
+		if used.Rows() != fresh.Rows() {
+			r.Violate("decode-differs", "auto-reuse-rows:"+kindName(rt), "inferred column, history %v: the reused column has %d rows, a fresh one %d", names, used.Rows(), fresh.Rows())
+			return
+		}
+		got, want := rowsShown(used, rows), rowsShown(fresh, rows)
+		if !reflect.DeepEqual(got, want) {
+			r.Violate("decode-differs", "auto-reuse-values:"+kindName(rt), "inferred column, history %v: after Reset and Infer(%q) the reused column reads the block as %.300v, a fresh one as %.300v", names, ty, got, want)
+			return
+		}
+		if i > 0 {
+			r.NonTriv = true
+			r.Fire("auto_reuse")
+		}
+	}
+}
+
 func runC16(t *testing.T, c *choice.Stream, r *Result, opt RunOpt) {
+	if c.Bool("family.auto", 1, 8) {
+		runC16Auto(c, r)
+		return
+	}
 	cs := DrawCols(c, "col", 1, 2)[0]
 	col, err := gen.NewCol(cs.Type)
 	if err != nil {
